@@ -45,7 +45,10 @@ func (L *Loader) verifyFuncHoudini(fn *ssa.Function, spec *FuncSpec, opt *solveO
 		if len(auto) == 0 {
 			return r
 		}
-		dischargeAll(auto, opt)
+		// candidates are guesses: one that is not proved at once is dropped, never retried
+		hopt := *opt
+		hopt.noRetry = true
+		dischargeAll(auto, &hopt)
 		dropped := false
 		for _, o := range auto {
 			if o.Verdict != "unsat" {
